@@ -260,9 +260,10 @@ Proof. intros Hin z Hz. apply in_flat_map. exists c; split; assumption. Qed.
 
 (* binders of a child are binders of the node - except for the callee of a called lambda, treated separately *)
 Lemma ib_child e c :
-  In c (children e) -> (forall ps b a k v, e <> Call (Lambda ps b) a k v) -> incl (inner_binders c) (inner_binders e).
+  In c (children e) -> (forall ps b a k v, e <> Call (Lambda ps b) a k v) ->
+  (forall cls ats cs a k v, e <> Call (Other cls ats cs) a k v) -> incl (inner_binders c) (inner_binders e).
 Proof.
-  intros Hin Hne z Hz. destruct e; cbn [children] in Hin; cbn [inner_binders];
+  intros Hin Hne Hno z Hz. destruct e; cbn [children] in Hin; cbn [inner_binders];
     try contradiction;
     repeat match goal with
            | H : In _ (_ :: _) |- _ => destruct H as [<-|H]
@@ -271,7 +272,7 @@ Proof.
            end;
     try (repeat (apply in_or_app; first [ left; solve [ assumption | eapply ib_in_list; eassumption ] | right ]);
          solve [ assumption | eapply ib_in_list; eassumption ]).
-  all: destruct e; try (exfalso; eapply Hne; reflexivity);
+  all: destruct e; try (exfalso; eapply Hne; reflexivity); try (exfalso; eapply Hno; reflexivity);
     try (repeat (apply in_or_app; first [ left; solve [ assumption | eapply ib_in_list; eassumption ] | right ]);
          solve [ assumption | eapply ib_in_list; eassumption ]).
 Qed.
@@ -286,7 +287,8 @@ Lemma ib_call_lambda_args ps b args kwn kwv c :
   In c args -> incl (inner_binders c) (inner_binders (Call (Lambda ps b) args kwn kwv)).
 Proof.
   intros Hin z Hz. pose proof (ib_in_list c args Hin z Hz) as H. cbn [inner_binders].
-  destruct kwn; destruct (inner_binders b); try destruct (Nat.eqb (length ps) (length args));
+  destruct kwn; destruct (inner_binders b);
+    try destruct (Nat.eqb (length ps) (length args) && negb (existsb is_starred args));
     repeat rewrite in_app_iff; tauto.
 Qed.
 
@@ -445,6 +447,17 @@ Section ResSem.
       (* the environment lists the second parameter first *)
       intros z; simpl; tauto.
   Qed.
+  (* a starred argument has no value of its own in the reference semantics (Python unpacks it at the call): a call
+     that has one has no value there, and [res] leaves such a call alone (F30) *)
+  Lemma starred_args_no_value E args : existsb is_starred args = true -> omap (ev E) args = None.
+  Proof.
+    induction args as [|a args IH]; [discriminate|]. cbn [existsb]. intros H.
+    unfold omap. cbn [map sequence]. destruct (is_starred a) eqn:Ha.
+    - destruct a; try discriminate. reflexivity.
+    - simpl in H. destruct (ev E a); [|reflexivity]. cbn [obind].
+      change (sequence (map (ev E) args)) with (omap (ev E) args). rewrite (IH H). reflexivity.
+  Qed.
+
   Lemma bind_args_nokw_len : forall ps vs E', bind_args ps vs [] = Some E' -> length ps = length vs.
   Proof.
     induction ps as [|p ps IH]; intros [|v vs] E' H; simpl in H; try discriminate; [reflexivity|].
@@ -491,12 +504,12 @@ Section ResSem.
     - (* the iterable: enclosing scope *)
       assert (Hit : In it (children g)) by (unfold g; cbn [children]; right; left; reflexivity).
       apply IH; [pose proof (size_child _ _ Hit); lia | eapply first_order_child; eauto | eapply FO_child; eauto | | exact HR].
-      eapply Inv_incl; [apply ib_child; [exact Hit | intros; discriminate] | exact HInvg].
+      eapply Inv_incl; [apply ib_child; [exact Hit | intros; discriminate | intros; discriminate] | exact HInvg].
     - intros v.
       apply (res_list n g ifs (shadow [x] :: st) ((x, v) :: E1) ((x, v) :: E2) IH); try assumption.
       + lia.
       + intros c0 Hc0. unfold g; cbn [children]. right; right; exact Hc0.
-      + intros c0 Hc0. apply ib_child; [unfold g; cbn [children]; right; right; exact Hc0 | intros; discriminate].
+      + intros c0 Hc0. apply ib_child; [unfold g; cbn [children]; right; right; exact Hc0 | intros; discriminate | intros; discriminate].
       + apply FO_shadow; exact HFOg.
       + apply Inv_shadow; exact HInvg.
       + apply Hext.
@@ -512,20 +525,22 @@ Section ResSem.
     clear IHn Hn. intros st E1 E2 Hfo HFO HInv HR.
     (* a direct child that is not the callee of a called lambda *)
     assert (Hkid : forall c, In c (children e) -> (forall ps b a k v, e <> Call (Lambda ps b) a k v) ->
+                   (forall cls ats cs a k v, e <> Call (Other cls ats cs) a k v) ->
                    refines (ev E1 c) (ev E2 (res st c))).
-    { intros c Hc Hne. apply IH; [apply size_child; exact Hc | eapply first_order_child; eauto
+    { intros c Hc Hne Hno. apply IH; [apply size_child; exact Hc | eapply first_order_child; eauto
                                  | eapply FO_child; eauto | eapply Inv_incl; [apply ib_child; eauto | exact HInv] | exact HR]. }
     assert (Hkids : forall l, (forall c, In c l -> In c (children e)) -> (forall ps b a k v, e <> Call (Lambda ps b) a k v) ->
+                    (forall cls ats cs a k v, e <> Call (Other cls ats cs) a k v) ->
                     Forall2 (fun a a' => refines (ev E1 a) (ev E2 a')) l (map (res st) l)).
-    { intros l Hl Hne. apply (res_list (size e) e l st E1 E2 IH (le_n _) Hl); try assumption.
-      intros c Hc. apply ib_child; [apply Hl; exact Hc | exact Hne]. }
+    { intros l Hl Hne Hno. apply (res_list (size e) e l st E1 E2 IH (le_n _) Hl); try assumption.
+      intros c Hc. apply ib_child; [apply Hl; exact Hc | exact Hne | exact Hno]. }
     destruct e as [x|c|v a|f args kwn kwv|ps b|o x|o l r|o es|l cops rs|c t f|es|es|ks vs|v s|elt gs|elt gs|t i ifs asy|c|cls atoms cs].
     - (* Name *)
       cbn [res eval]. specialize (HR x).
       destruct (lookup_st x st) as [[a|]|]; try (rewrite HR; apply refines_refl).
       intros w Hw. apply HR. exact Hw.
     - apply refines_refl.
-    - (* Attr *) cbn [res]. apply c_attr. apply Hkid; [left; reflexivity | intros; discriminate].
+    - (* Attr *) cbn [res]. apply c_attr. apply Hkid; [left; reflexivity | intros; discriminate | intros; discriminate].
     - (* Call *)
       destruct f as [op| | s m | | lps lb | | | | | | | | | | | | | | ];
         try (intros w Hw; exfalso; eapply call_other_none; [ | | | exact Hw]; intros; discriminate).
@@ -538,8 +553,8 @@ Section ResSem.
         rewrite Hop. apply c_call_name.
         * apply (res_args (size (Call (Name op) args kwn kwv)) (Call (Name op) args kwn kwv)); try assumption; try apply le_n.
           -- intros c Hc. cbn [children]. right. apply in_or_app; left; exact Hc.
-          -- intros c Hc. apply ib_child; [cbn [children]; right; apply in_or_app; left; exact Hc | intros; discriminate].
-        * apply Hkids; [|intros; discriminate]. intros c Hc. cbn [children]. right. apply in_or_app; right; exact Hc.
+          -- intros c Hc. apply ib_child; [cbn [children]; right; apply in_or_app; left; exact Hc | intros; discriminate | intros; discriminate].
+        * apply Hkids; [|intros; discriminate|intros; discriminate]. intros c Hc. cbn [children]. right. apply in_or_app; right; exact Hc.
       + (* method call *)
         change (res st (Call (Attr s m) args kwn kwv))
           with (Call (Attr (res st s) m) (map (res st) args) kwn (map (res st) kwv)).
@@ -554,8 +569,8 @@ Section ResSem.
           -- exact HR.
         * apply (res_args (size (Call (Attr s m) args kwn kwv)) (Call (Attr s m) args kwn kwv)); try assumption; try apply le_n.
           -- intros c Hc. cbn [children]. right. apply in_or_app; left; exact Hc.
-          -- intros c Hc. apply ib_child; [cbn [children]; right; apply in_or_app; left; exact Hc | intros; discriminate].
-        * apply Hkids; [|intros; discriminate]. intros c Hc. cbn [children]. right. apply in_or_app; right; exact Hc.
+          -- intros c Hc. apply ib_child; [cbn [children]; right; apply in_or_app; left; exact Hc | intros; discriminate | intros; discriminate].
+        * apply Hkids; [|intros; discriminate|intros; discriminate]. intros c Hc. cbn [children]. right. apply in_or_app; right; exact Hc.
       + (* called lambda *)
         set (e := Call (Lambda lps lb) args kwn kwv) in *.
         assert (Hlam : In (Lambda lps lb) (children e)) by (left; reflexivity).
@@ -582,6 +597,9 @@ Section ResSem.
         unfold e. cbn [res]. destruct kwn as [|k kwn].
         * destruct (Nat.eqb (length lps) (length args)) eqn:Hlen.
           -- apply Nat.eqb_eq in Hlen.
+             destruct (existsb is_starred args) eqn:Hstar.
+             { (* F30: a starred argument - the call is left; the reference semantics gives it no value *)
+               intros w Hw. exfalso. cbn [eval] in Hw. rewrite (starred_args_no_value E1 args Hstar) in Hw. discriminate. }
              destruct (overlaps (flat_map names_in (map (res st) args)) (inner_binders lb)) eqn:Hov.
              ++ (* FC4: left as a call *)
                 apply c_call_lambda0; [exact Hargs|]. apply Hstay. right. eapply overlaps_true_nonempty; eauto.
@@ -621,16 +639,16 @@ Section ResSem.
           -- intros c Hc. unfold e; cbn [children]. right. apply in_or_app; right; exact Hc.
           -- intros c Hc. apply ib_call_lambda_kwv; exact Hc.
     - (* Lambda: not a value *) apply refines_none.
-    - cbn [res]. apply c_unary. apply Hkid; [left; reflexivity | intros; discriminate].
+    - cbn [res]. apply c_unary. apply Hkid; [left; reflexivity | intros; discriminate | intros; discriminate].
     - cbn [res]. apply c_bin; apply Hkid; try (intros; discriminate); [left; reflexivity | right; left; reflexivity].
-    - cbn [res]. apply c_boolop. apply Hkids; [intros c0 Hc0; exact Hc0 | intros; discriminate].
+    - cbn [res]. apply c_boolop. apply Hkids; [intros c0 Hc0; exact Hc0 | intros; discriminate | intros; discriminate].
     - cbn [res]. apply c_compare.
-      + apply Hkid; [left; reflexivity | intros; discriminate].
-      + apply Hkids; [intros c0 Hc0; right; exact Hc0 | intros; discriminate].
+      + apply Hkid; [left; reflexivity | intros; discriminate | intros; discriminate].
+      + apply Hkids; [intros c0 Hc0; right; exact Hc0 | intros; discriminate | intros; discriminate].
     - cbn [res]. apply c_if; apply Hkid; try (intros; discriminate);
         [left; reflexivity | right; left; reflexivity | right; right; left; reflexivity].
-    - cbn [res]. apply c_tuple. apply Hkids; [intros c0 Hc0; exact Hc0 | intros; discriminate].
-    - cbn [res]. apply c_list. apply Hkids; [intros c0 Hc0; exact Hc0 | intros; discriminate].
+    - cbn [res]. apply c_tuple. apply Hkids; [intros c0 Hc0; exact Hc0 | intros; discriminate | intros; discriminate].
+    - cbn [res]. apply c_list. apply Hkids; [intros c0 Hc0; exact Hc0 | intros; discriminate | intros; discriminate].
     - cbn [res]. apply c_dict; apply Hkids; try (intros; discriminate);
         intros c0 Hc0; cbn [children]; apply in_or_app; [left | right]; exact Hc0.
     - cbn [res]. apply c_sub; apply Hkid; try (intros; discriminate); [left; reflexivity | right; left; reflexivity].
@@ -858,11 +876,12 @@ Section RwSem.
     - cbn [rw] in H. destruct gs; [discriminate|]. inv_same H. inversion H.
     - cbn [rw] in H. inv_same H. inversion H.
     - cbn [rw] in H. inversion H.
-    - cbn [rw] in H. destruct (String.prefix "SetComp;" cls).
-      { destruct cs as [|h [|g gs]]; try discriminate. inv_same H. inversion H. }
-      destruct (String.prefix "DictComp;" cls).
-      { destruct cs as [|k [|v [|g gs]]]; try discriminate. inv_same H. inversion H. }
-      inv_same H. inversion H.
+    - destruct (String.prefix "SetComp;" cls) eqn:E1.
+      { cbn [rw] in H. rewrite E1 in H. destruct cs as [|h [|g gs]]; try discriminate. inv_same H. inversion H. }
+      destruct (String.prefix "DictComp;" cls) eqn:E2.
+      { cbn [rw] in H. rewrite E1, E2 in H. destruct cs as [|k [|v [|g gs]]]; try discriminate. inv_same H. inversion H. }
+      rewrite (rw_other_shape ce st cls atoms cs E1 E2) in H.
+      destruct (lam_parts cls cs) as [[[[[acls aatoms] akids] b] lv]|]; inv_same H; inversion H.
   Qed.
   (* callees that are neither a name, an attribute, a lambda nor a constant keep their shape *)
   Definition plain_callee (e : expr) : Prop :=
@@ -885,7 +904,14 @@ Section RwSem.
     destruct (String.prefix "DictComp;" cls).
     { destruct cs as [|k [|v [|g gs]]]; try discriminate. inv_same H. inversion H; subst.
       split; [repeat split; intros; discriminate | reflexivity]. }
-    inv_same H. inversion H; subst. split; [repeat split; intros; discriminate | reflexivity].
+    destruct (String.prefix "Lambda;" cls);
+      [|inv_same H; inversion H; subst; split; [repeat split; intros; discriminate | reflexivity]].
+    destruct cs as [|a0 [|b0 [|c0 cs]]];
+      try (inv_same H; inversion H; subst; split; [repeat split; intros; discriminate | reflexivity]);
+      (destruct a0 as [| | | | | | | | | | | | | | | | | |acls aatoms akids];
+       try (inv_same H; inversion H; subst; split; [repeat split; intros; discriminate | reflexivity])).
+    destruct (lam_view acls akids);
+      inv_same H; inversion H; subst; split; [repeat split; intros; discriminate | reflexivity | repeat split; intros; discriminate | reflexivity].
   Qed.
 
   Lemma call_plain_none E f args kwn kwv : plain_callee f -> ev E (Call f args kwn kwv) = None.
@@ -1150,13 +1176,15 @@ Section RwSem.
       cbn [rw] in H. inv_same H. inversion H; subst. split; [apply cc_none; reflexivity | left; reflexivity].
     - cbn [rw] in H. inversion H; subst. split; [apply cc_none; reflexivity | left; reflexivity].
     - (* Other: no value *)
-      cbn [rw] in H. destruct (String.prefix "SetComp;" cls).
-      { destruct cs as [|h [|g gs]]; try discriminate. inv_same H. inversion H; subst.
+      destruct (String.prefix "SetComp;" cls) eqn:Ep1.
+      { cbn [rw] in H. rewrite Ep1 in H. destruct cs as [|h [|g gs]]; try discriminate. inv_same H. inversion H; subst.
         split; [apply cc_none; reflexivity | left; reflexivity]. }
-      destruct (String.prefix "DictComp;" cls).
-      { destruct cs as [|k [|v [|g gs]]]; try discriminate. inv_same H. inversion H; subst.
+      destruct (String.prefix "DictComp;" cls) eqn:Ep2.
+      { cbn [rw] in H. rewrite Ep1, Ep2 in H. destruct cs as [|k [|v [|g gs]]]; try discriminate. inv_same H. inversion H; subst.
         split; [apply cc_none; reflexivity | left; reflexivity]. }
-      inv_same H. inversion H; subst. split; [apply cc_none; reflexivity | left; reflexivity].
+      rewrite (rw_other_shape ce st cls atoms cs Ep1 Ep2) in H.
+      destruct (lam_parts cls cs) as [[[[[acls aatoms] akids] b] lv]|]; inv_same H; inversion H; subst;
+        (split; [apply cc_none; reflexivity | left; reflexivity]).
   Qed.
 End RwSem.
 
